@@ -174,10 +174,17 @@ def d2f_phases(prim, qpoints):
     return out
 
 
-SMATS_II = [np.diag(d) for d in ([2, 2, 2], [2, 1, 2], [2, 2, 1], [1, 1, 2], [2, 1, 1])]
-SMATS_IJ = [np.diag([3, 1, 1]), np.diag([1, 3, 1]), np.diag([1, 1, 3]), np.diag([3, 2, 1]), np.diag([4, 1, 1]),
-            np.array([[2, 1, 0], [0, 2, 0], [0, 0, 1]]), np.array([[1, 1, 0], [-1, 2, 0], [0, 0, 1]]),
-            np.array([[1, 0, 1], [0, 1, 0], [-1, 0, 2]]), np.array([[2, 0, 0], [1, 2, 0], [0, 0, 1]])]
+SMATS = {
+    "ii-diag": [np.diag(d) for d in ([2, 2, 2], [2, 1, 2], [2, 2, 1], [1, 1, 2], [2, 1, 1])],
+    "ij-diag": [np.diag(d) for d in ([3, 1, 1], [1, 3, 1], [1, 1, 3], [3, 2, 1], [4, 1, 1])],
+    # non-symmetric supercell matrices (S != S^T): only self-conjugate commensurate points ...
+    "ii-nonsym": [np.array(m) for m in ([[1, 1, 0], [-1, 1, 0], [0, 0, 1]], [[1, 1, 0], [-1, 1, 0], [0, 0, 2]], [[2, 0, 0], [2, 2, 0], [0, 0, 1]],
+                                        [[1, 0, 1], [0, 1, 0], [-1, 0, 1]], [[2, 0, 0], [0, 1, 1], [0, -1, 1]])],
+    # ... and with conjugate pairs
+    "ij-nonsym": [np.array(m) for m in ([[2, 1, 0], [0, 2, 0], [0, 0, 1]], [[1, 1, 0], [-1, 2, 0], [0, 0, 1]], [[1, 0, 1], [0, 1, 0], [-1, 0, 2]],
+                                        [[2, 0, 0], [1, 2, 0], [0, 0, 1]], [[1, 2, 0], [-1, 1, 0], [0, 0, 1]], [[1, 0, 0], [1, 3, 0], [0, 0, 1]])],
+}
+SMAT_CLASSES = ["ii-diag", "ij-nonsym", "ii-nonsym", "ij-diag"]
 
 
 def main(run):
@@ -199,12 +206,13 @@ def main(run):
     run.cov["population_guard_from_source_K"] = tguard
     run.cov["rule"] = (
         "random displacements: prototype crystals (1-3 atoms/primitive cell) x supercells with only self-conjugate commensurate "
-        "points (2x2x2, 2x1x2, ...) and with conjugate pairs (3x1x1, 4x1x1, non-diagonal) x {quantum, classical} x cutoff {0.01, 0.5, 3} "
+        "points and with conjugate pairs, each with diagonal and with non-symmetric supercell matrices (four classes cycled, so every quick run has all four) x {quantum, classical} x cutoff {0.01, 0.5, 3} "
         "x T {0, 0.3, 1, 10, 300, 1000}; the implementation's linear map is read column by column through `randn` (unit vectors) "
         "and compared with the Lean model fed with the implementation's eigen-solutions (A, A.A^T, uu, uu_inv, run_d2f rows; "
         "1e-9*scale); oracle = dense canonical covariance from the supercell force constants. Thermal displacements: crystals x "
-        "meshes (<= 27 points) x force-constant scale {1, 1e-4, 1e-6} x frequency windows x projection directions x T sweep "
+        "meshes (<= 27 points) x supercells (diagonal and non-symmetric) x force-constant scale {1, 1e-4, 1e-6} x frequency windows (incl. additivity of adjacent windows) x projection directions x T sweep "
         "including T <= 1 K; oracle = independent hbar(1/2+n)/omega sum, symmetry, PSD, diagonal, CIF convention. "
+        "API sequences on one Phonopy instance: generate_displacements(temperature) -> {masses, symmetrize_force_constants, symmetrize_force_constants_by_space_group, set_force_constants_zero_with_radius, new force constants, nac_params} -> generate again; after every step the RandomDisplacements object in use and the generated (seeded) displacements are compared with a fresh Phonopy object in the current state and with the dense oracle. "
         "Non-trivial = supercell larger than the primitive cell and at least one unmasked mode.")
     run.cov["trusted_base"] = [
         "Lean 4.33 kernel; Mathlib v4.33; axioms per theorem in coverage.theorems",
@@ -226,15 +234,16 @@ def main(run):
     lines, meta = [], []
 
     # =========================================================== random displacements
-    nrd = 48 if thorough else 10
-    max_ns = 16 if thorough else 10
+    nrd = 96 if thorough else 12
+    max_ns = 18 if thorough else 10
     made = attempts = 0
     while made < nrd and attempts < 30 * nrd:
         attempts += 1
         name = rng.choice(["sc1", "tri1", "cscl", "nacl_prim", "zincblende_prim", "hcp", "bct", "mono_P", "triclinic"])
         cell = make_cell(name)
-        want_pairs = made % 2 == 1
-        smat = rng.choice(SMATS_IJ if want_pairs else SMATS_II)
+        sclass = SMAT_CLASSES[made % 4]
+        want_pairs = sclass.startswith("ij")
+        smat = rng.choice(SMATS[sclass])
         ns = len(cell) * int(round(abs(np.linalg.det(smat))))
         if ns > max_ns or ns < 2:
             continue
@@ -369,6 +378,7 @@ def main(run):
         nontrivial = nsat > npa and rank > 0
         run.case(("rd", name, np.array(smat).tolist(), mode, cutoff, T), nontrivial=nontrivial)
         run.count("rd %s" % ("with conjugate pairs" if has_pairs else "self-conjugate points only"))
+        run.count("rd supercell matrix %s" % ("non-symmetric" if (np.array(smat) != np.array(smat).T).any() else "symmetric"))
         run.count("rd %s" % mode)
         run.count("rd T=%g" % T)
         run.count("rd cutoff=%s" % cutoff)
@@ -400,14 +410,90 @@ def main(run):
         if np.abs(fc_back - fc).max() > 1e-9 * max(1.0, np.abs(fc).max()):
             run.violation("RandomDisplacements.run_d2f", klass, "force constants rebuilt from unmodified eigen-solutions differ by %.3g" % np.abs(fc_back - fc).max(), info)
 
+    # =========================================================== API sequences on ONE Phonopy instance
+    # generate at T -> mutate the state (masses / force constants in place / new force constants / NAC) -> generate again:
+    # every generation must be the canonical one of the CURRENT state (reference: a fresh Phonopy object in that state)
+    from phonopy.harmonic.force_constants import compact_fc_to_full_fc, full_fc_to_compact_fc
+
+    seq_cases = [("cscl", np.diag([2, 2, 1]))]
+    if thorough:
+        seq_cases += [("nacl_prim", np.array([[2, 1, 0], [0, 2, 0], [0, 0, 1]])), ("hcp", np.diag([2, 1, 1])), ("zincblende_prim", np.diag([3, 1, 1]))]
+    for (name, smat) in seq_cases:
+        cell = make_cell(name)
+        ph = Phonopy(cell, supercell_matrix=smat, primitive_matrix="P", log_level=0)
+        fc0 = gen.pair_fc(ph.supercell, 4.5)
+        # translationally periodic, but neither index-permutation symmetric nor obeying the sum rule (so the symmetrisers act)
+        fcc = full_fc_to_compact_fc(ph.primitive, fc0)
+        fcc = fcc + gen.rand_rational_array(rng, fcc.shape, den=256, lim=8)
+        ph.force_constants = compact_fc_to_full_fc(ph.primitive, fcc)
+        npa = len(ph.primitive)
+        steps = [
+            ("initial", lambda: None),
+            ("masses", lambda: setattr(ph, "masses", ph.masses * np.array([rng.choice([0.5, 2.0, 3.0]) if i % 2 == 0 else 1.0 for i in range(npa)]))),
+            ("symmetrize_force_constants", lambda: ph.symmetrize_force_constants(level=2)),
+            ("symmetrize_force_constants_by_space_group", lambda: ph.symmetrize_force_constants_by_space_group()),
+            ("set_force_constants_zero_with_radius", lambda: ph.set_force_constants_zero_with_radius(3.9)),
+            ("new force constants", lambda: setattr(ph, "force_constants", gen.pair_fc(ph.supercell, 3.5))),
+            ("nac_params", lambda: setattr(ph, "nac_params", {"born": np.array([np.eye(3) * (1.0 if i % 2 == 0 else -1.0) for i in range(npa)]),
+                                                             "dielectric": np.eye(3) * 2.5, "factor": 14.399652, "method": "wang"})),
+            ("masses again", lambda: setattr(ph, "masses", ph.masses * 1.5)),
+        ]
+        for k_, (label, act) in enumerate(steps):
+            act()
+            T = [300.0, 150.0, 600.0, 50.0, 900.0, 300.0, 20.0, 450.0][k_ % 8]
+            nsnap = 3
+            seed_ = 11 + k_
+            ph.generate_displacements(number_of_snapshots=nsnap, random_seed=seed_, temperature=T)
+            d_api = np.array(ph.displacements).copy()
+            rd_used = ph.random_displacements
+            A_used = linmap(rd_used, T)
+            cov_used = A_used @ A_used.T
+            # fresh object in the current state
+            fresh = Phonopy(cell, supercell_matrix=smat, primitive_matrix="P", log_level=0)
+            fresh.masses = ph.masses
+            if ph.nac_params is not None:
+                fresh.nac_params = ph.nac_params
+            fresh.force_constants = np.array(ph.force_constants).copy()
+            fresh.generate_displacements(number_of_snapshots=nsnap, random_seed=seed_, temperature=T)
+            d_fresh = np.array(fresh.displacements).copy()
+            A_fresh = linmap(fresh.random_displacements, T)
+            cov_fresh = A_fresh @ A_fresh.T
+            info = dict(cell=name, smat=np.array(smat).tolist(), step=k_, after=label, T=T, random_seed=seed_,
+                        history=[st[0] for st in steps[:k_ + 1]])
+            scale = max(np.abs(cov_fresh).max(), 1e-300)
+            run.case(("seq", name, np.array(smat).tolist(), k_, label), nontrivial=k_ > 0)
+            run.count("api-sequence step: %s" % label)
+            run.count("oracle-api-sequence-vs-fresh-object", section="oracle")
+            if np.abs(cov_used - cov_fresh).max() > 1e-9 * scale:
+                dg = np.diag(cov_used).reshape(-1, 3).sum(axis=1) / np.maximum(np.diag(cov_fresh).reshape(-1, 3).sum(axis=1), 1e-300)
+                run.violation("Phonopy.generate_displacements(temperature)", "after-" + label,
+                              "the RandomDisplacements object used by generate_displacements has covariance A.A^T differing from that of a fresh "
+                              "Phonopy object in the current state by %.3g (scale %.3g); MSD ratio per atom %s" % (
+                                  np.abs(cov_used - cov_fresh).max(), scale, np.round(dg, 3).tolist()), info)
+            elif np.abs(d_api - d_fresh).max() > 1e-10 * max(np.abs(d_fresh).max(), 1e-300):
+                run.violation("Phonopy.generate_displacements(temperature)", "after-" + label,
+                              "displacements generated with the same random_seed differ from those of a fresh Phonopy object in the current state by %.3g" % (
+                                  np.abs(d_api - d_fresh).max()), info)
+            # independent dense oracle whenever the current force constants are symmetric (then D(q) needs no Hermitisation)
+            fcn = np.array(ph.force_constants)
+            if np.abs(fcn - fcn.transpose(1, 0, 3, 2)).max() < 1e-10 * max(1.0, np.abs(fcn).max()):
+                C, rank, fsc = dense_oracle(ph, T, rd_used._cutoff_frequency, "quantum")
+                if np.abs(fsc - rd_used._cutoff_frequency).min() > 1e-6:
+                    run.count("oracle-api-sequence-vs-dense-covariance", section="oracle")
+                    if np.abs(cov_used - C).max() > 1e-8 * max(np.abs(C).max(), 1e-300):
+                        run.violation("Phonopy.generate_displacements(temperature)", "after-" + label + "-dense",
+                                      "covariance of the sampler used by generate_displacements differs from the canonical covariance of the current "
+                                      "supercell by %.3g (scale %.3g)" % (np.abs(cov_used - C).max(), np.abs(C).max()), info)
+
     # =========================================================== thermal displacements
-    ntd = 36 if thorough else 8
+    ntd = 72 if thorough else 8
     f13_hits = 0
     for t in range(ntd):
         name = rng.choice(["sc1", "tri1", "cscl", "nacl_prim", "zincblende_prim", "hcp", "bct", "mono_P"])
         cell = make_cell(name)
-        smat = np.diag(rng.choice([[2, 2, 2], [2, 2, 1], [3, 1, 2]]))
-        if len(cell) * int(np.prod(smat.diagonal())) > 32:
+        smat = rng.choice([np.diag([2, 2, 2]), np.diag([2, 2, 1]), np.diag([3, 1, 2]), np.array([[2, 1, 0], [0, 2, 0], [0, 0, 1]]),
+                           np.array([[1, 1, 0], [-1, 2, 0], [0, 0, 2]])])
+        if len(cell) * int(round(abs(np.linalg.det(smat)))) > 32:
             smat = np.diag([2, 2, 1])
         ph = Phonopy(cell, supercell_matrix=smat, primitive_matrix="P", log_level=0)
         fcscale = [1.0, 1e-4, 1e-6][t % 3]
@@ -441,7 +527,7 @@ def main(run):
         nb = 3 * npa
         nq = len(fr)
         m_amu = ph.primitive.masses * AMU
-        info = dict(cell=name, smat=smat.tolist(), mesh=list(map(int, mesh)), gamma_center=bool(gamma), fc_scale=fcscale, fmin=float(fmin),
+        info = dict(cell=name, smat=np.array(smat).tolist(), mesh=list(map(int, mesh)), gamma_center=bool(gamma), fc_scale=fcscale, fmin=float(fmin),
                     fmax=None if fmax is None else float(fmax), direction=direction.tolist())
         Amat = ph.primitive.cell.T
         Nn = np.diag([np.linalg.norm(x) for x in np.linalg.inv(Amat)])
@@ -449,12 +535,28 @@ def main(run):
         valid = fr > fmin
         if fmax is not None:
             valid = valid & (fr < fmax)
-        run.case(("td", name, smat.tolist(), tuple(mesh), gamma, fcscale, float(fmin), fmax, direction.tolist()), nontrivial=bool(valid.any()))
+        run.case(("td", name, np.array(smat).tolist(), tuple(mesh), gamma, fcscale, float(fmin), fmax, direction.tolist()), nontrivial=bool(valid.any()))
         run.count("td fc-scale=%g" % fcscale)
         run.count("td %s" % name)
         run.sample(dict(info, temperatures=temps, n_qpoints=nq, lowest_included_THz=float(fr[valid].min()) if valid.any() else None))
         unit = Hbar * EV / Angstrom ** 2
         w = 1e12 * 2 * np.pi
+        # adjacent (open) windows add up when no sampled frequency sits on the common edge
+        fhi = float(fmax) if fmax is not None else float(fr.max() * 1.1 + 1.0)
+        inside = np.sort(fr[(fr > fmin) & (fr < fhi)])
+        if len(inside) >= 2:
+            k_ = rng.randrange(len(inside) - 1)
+            if inside[k_ + 1] - inside[k_] > 1e-6 * max(1.0, abs(inside[k_])):
+                fmid = float((inside[k_] + inside[k_ + 1]) / 2)
+                outs = []
+                for (lo_, hi_) in ((fmin, fhi), (fmin, fmid), (fmid, fhi)):
+                    ph.run_thermal_displacement_matrices(temperatures=temps, freq_min=lo_, freq_max=hi_)
+                    outs.append(ph.thermal_displacement_matrices.thermal_displacement_matrices.copy())
+                run.count("oracle-td-window-additivity", section="oracle")
+                if np.abs(outs[0] - outs[1] - outs[2]).max() > 1e-9 * max(np.abs(outs[0]).max(), 1e-300):
+                    run.violation("ThermalDisplacementMatrices.run", "window-additivity",
+                                  "U(fmin,fmax) != U(fmin,fmid) + U(fmid,fmax) (%.3g)" % np.abs(outs[0] - outs[1] - outs[2]).max(),
+                                  dict(info, fmid=fmid, fhi=fhi))
         tm = ThermalMotion.__new__(ThermalMotion)
         for it, T in enumerate(temps):
             # ---- reference (independent): hbar (1/2 + n) / omega
@@ -497,6 +599,11 @@ def main(run):
             cif_err = max(np.abs(AN @ Uc[it][i] @ AN.T - U[it][i]).max() for i in range(npa))
             if cif_err > 1e-9 * su:
                 run.violation("ThermalDisplacementMatrices.run", "cif-convention", "A N U_cif N^T A^T != U_cart (%.3g)" % cif_err, dict(info, T=T))
+            # mass-weighted trace: sum_i m_i tr U_i = (1/Nq) sum over the sampled modes of Q2 (normalised eigenvectors)
+            trm = float((m_amu[:, None] * np.array([np.diag(xx) for xx in U[it]])).sum())
+            q2s = float(Q2[valid].sum() / nq) if valid.any() else 0.0
+            if klass != "T<=guard" and abs(trm - q2s) > 1e-9 * max(abs(q2s), 1e-300):
+                run.violation("ThermalDisplacementMatrices.run", "mass-weighted-trace", "sum_i m_i tr U_i = %.12g, (1/Nq) sum Q2 = %.12g" % (trm, q2s), dict(info, T=T))
             run.count("oracle-td-structure", section="oracle")
             # ---- model request: the Bose factor is a parameter; the model applies the guard read from the source
             with np.errstate(all="ignore"):
